@@ -177,22 +177,23 @@ type CandOp struct {
 
 // RawOp is one step of a raw (possibly hostile) client script.
 type RawOp struct {
-	AtMs    int               `json:"at,omitempty"` // delay before the op
-	Op      string            `json:"op"`           // http | ws-open | ws-frame | ws-raw | ws-close | wt-open | wt-raw | wt-close | abort | wait
-	Method  string            `json:"method,omitempty"`
-	Path    string            `json:"path,omitempty"`
-	Query   string            `json:"query,omitempty"`
-	UseSid  bool              `json:"useSid,omitempty"` // append &sid=<sid learned from the first open packet>
-	SidOf   string            `json:"sidOf,omitempty"`  // append &sid=<session id of that client alias> (live or closed)
-	Expect  string            `json:"expect,omitempty"` // generator's note for humans
-	Hdr     map[string]string `json:"hdr,omitempty"`
-	Body    []byte            `json:"body,omitempty"`
-	BodyGen int64             `json:"bodyGen,omitempty"`
-	NoCL    bool              `json:"nocl,omitempty"`
-	Async   bool              `json:"async,omitempty"` // do not wait for the response before the next op
-	Frame   *RawFrame         `json:"frame,omitempty"`
-	Bytes   []byte            `json:"bytes,omitempty"`
-	Conn    int               `json:"conn,omitempty"` // which ws/wt connection of this client
+	AtMs      int               `json:"at,omitempty"` // delay before the op
+	Op        string            `json:"op"`           // http | ws-open | ws-frame | ws-raw | ws-close | wt-open | wt-raw | wt-close | abort | wait
+	Method    string            `json:"method,omitempty"`
+	Path      string            `json:"path,omitempty"`
+	Query     string            `json:"query,omitempty"`
+	UseSid    bool              `json:"useSid,omitempty"` // append &sid=<sid learned from the first open packet>
+	SidOf     string            `json:"sidOf,omitempty"`  // append &sid=<session id of that client alias> (live or closed)
+	Expect    string            `json:"expect,omitempty"` // generator's note for humans
+	Hdr       map[string]string `json:"hdr,omitempty"`
+	Body      []byte            `json:"body,omitempty"`
+	BodyGen   int64             `json:"bodyGen,omitempty"`
+	NoCL      bool              `json:"nocl,omitempty"`
+	BodyErrAt int64             `json:"bodyErrAt,omitempty"` // reading the request body fails after that many bytes minus one (the connection stays)
+	Async     bool              `json:"async,omitempty"`     // do not wait for the response before the next op
+	Frame     *RawFrame         `json:"frame,omitempty"`
+	Bytes     []byte            `json:"bytes,omitempty"`
+	Conn      int               `json:"conn,omitempty"` // which ws/wt connection of this client
 }
 
 type RawFrame struct {
